@@ -10,6 +10,11 @@ CLAIMS = {
          "Coq theorems over models regenerated from mypy/constant_fold.py and mypy/reachability.py (int folding = CPython's int semantics for all operands, no exception escapes; version/platform tests equal the run-time value for every interpreter of the target, with the exact characterisation of the one refuted class F5), hand models of call binding and C3 MRO proved equal to the transcribed CPython rule; models tied to /repo by translator + exhaustive correspondence against the implementation and CPython",
          "Coq 8.16.1 kernel, vm_compute; translator tools/py2gallina.py; ExtrOcamlBasic extraction + OCaml drivers; CPython 3.12.1 (eval, type(), real calls) as run-time oracle; floats not modelled; arity theorem covers positional+keyword actuals only (*tuple/**TypedDict actuals not modelled); CPython pmerge/initialize_locals transcribed by hand and tied to CPython behaviourally; known finding F5 (version_info compared with a literal equal to the target prefix) is characterised exactly by theorem version_test_exact",
          "Coq proof over translated model + exhaustive correspondence vs implementation and CPython", "6/C12"),
+
+ "C07": ("proof",
+         "Coq theorems over an operational model of mypy's parallel scheduler (coordinator ready / not_ready_count / queue / free-workers bookkeeping; worker interface->commit->reply->implementation->commit->reply; shared store), for every DAG, every N and every schedule: a completed parallel run leaves exactly the sequential interfaces and diagnostics (also as the cache map); SCCs are submitted only when their deps are done; workers only read committed (= sequential) interfaces; every SCC is processed once; no deadlock; every run has at most 8*|SCCs| events. The model is tied to /repo by trace validation of every parallel run's coordinator/worker event log against the model's step function, plus a -n N vs sequential output and cache-map oracle under seeded schedule perturbation",
+         "Coq 8.16.1, no axioms; analysis abstract (Section functions of sources and committed interfaces of transitive deps, monitored by the S oracle); batching policy abstracted to any non-empty subset of the queue (theorems hold for all); blockers and worker crashes not modelled; instrumentation external (tools/shim/c07 sitecustomize, PYTHON_MYPY_VERIF=1), it raises WORKER_START_TIMEOUT",
+         "global-invariant proof over an event-step model + trace validation against the real scheduler + differential oracle", "6/C07"),
 }
 NOT_YET = "model and theorems for this property are not built yet in this round (see DESIGN.md section 6 for the plan); not claimed until the Coq development and its tie exist"
 
